@@ -10,7 +10,7 @@
      checked     annotated_fcprog                         (every node carries its type after check)
      core        wt_core  +  pre_check, focus_wf          (preconditions of the focusing theorems)
      uniquified  wt_core
-     focused     wt_fs + unique_binders + ids_bounded;  also wt_core (embed_prog f) must agree
+     focused     wt_fs + unique_binders + ids_bounded + names_ok;  also wt_core (embed_prog f) must agree
      shrunk      AxCheck.check_prog (wt_ax)  +  LinCheck.prog_ok (hypothesis of the linearize theorem)
      linearized  LinCheck.lin_check_prog
      x86/a64/rv  a panic whose message is one of the documented capacity limits is accepted; if the
@@ -30,9 +30,9 @@
      VIOL class=ill-typed-stage:core-inside-guard <name> ..  the source satisfies prog_tyguard (the hypothesis of theorem
                                  C12_fun2core_preserves_typing_fragment2) and the REAL fun2core output is ill-typed:
                                  would contradict the theorem (model/code mismatch)
-     VIOL class=ill-typed-stage:<stage>-inside-pipeline-guard ..  all hypotheses of theorem C12_pipeline_wt hold (prog_tyguard
-                                 of the source, pre_check of the real Core output, names_ok and decls_ok of the real focused
-                                 output) and a checker rejects a REAL stage output: would contradict the theorem
+     VIOL class=ill-typed-stage:<stage>-inside-pipeline-guard ..  both hypotheses of theorem C12_pipeline_wt_source hold
+                                 (prog_tyguard and xtor_tys_guard of the SOURCE program) and a checker rejects a REAL stage
+                                 output: would contradict the theorem (model/code mismatch)
      VIOL class=ill-typed-stage:<stage> <name> <why>        any other failure of a checker
      VIOL class=internal-failure:<stage> <name> <panic message>    any non-capacity panic, any panic within capacity
      OK k nt <risk> <f2c-guard | f2c-noguard:why> <pipe-guard | pipe-noguard:which> x86:<ok|ok-beyond|cap> a64:<..> rv:<ok|ok-beyond|cap|noprint> ctx<log2 max context> size<log2 nodes>
@@ -91,6 +91,7 @@ Definition chk_focused (f : fsprog) : option string :=
   check_fs f
   ?> fensure (unique_binders f) "binders not unique along a path"
   ?> fensure (ids_bounded f) "an id exceeds max_id"
+  ?> fensure (FsFrag2.names_ok f) "two identifiers with the same id are spelled differently (contradicts theorem C12_focus_names_ok)"
   ?> match check_core (embed_prog f) with
      | None => None
      | Some m => Some ("wt_fs accepts but wt_core (embed_prog f) rejects: " ++ m)
@@ -243,15 +244,10 @@ Definition wtstages_case (i r : sexp) : verdict :=
             end end end end end end end end end in
           let risk := shadowing_risk_prog fp in
           let g1 := prog_tyguard fp in
-          (* the hypotheses of theorem C12_pipeline_wt, the stage-output conditions evaluated on the REAL outputs *)
-          let g_pre := match core with SVal c => pre_check c | _ => true end in
-          let g_names := match foc with SVal f => FsFrag2.names_ok f | _ => true end in
-          let g_decls := match foc with SVal f => FsFrag2.decls_ok f | _ => true end in
-          let g2 := g1 && g_pre && g_names && g_decls in
-          let pipe_tag := if g2 then " pipe-guard"
-                          else if negb g1 then " pipe-noguard:f2c"
-                          else if negb g_pre then " pipe-noguard:pre_check"
-                          else if negb g_names then " pipe-noguard:names_ok" else " pipe-noguard:decls_ok" in
+          (* the hypotheses of theorem C12_pipeline_wt_source: two boolean guards on the SOURCE program *)
+          let g_xt := xtor_tys_guard fp in
+          let g2 := g1 && g_xt in
+          let pipe_tag := if g2 then " pipe-guard" else if negb g1 then " pipe-noguard:f2c" else " pipe-noguard:xtor-types" in
           match first with
           | Some (st, (true, why)) =>
               (* theorem C12_fun2core_preserves_typing_fragment2 confronted with the real translation *)
@@ -260,7 +256,7 @@ Definition wtstages_case (i r : sexp) : verdict :=
               (* theorem C12_pipeline_wt confronted with the real stages: inside its guards no checker may fail
                  (the comparison of wt_fs with wt_core of the embedding is not part of the theorem) *)
               else if g2 && negb (String.eqb st "checked") && negb (contains "wt_core (embed_prog f) rejects" why)
-              then VViol ("class=ill-typed-stage:" ++ st ++ "-inside-pipeline-guard " ++ name ++ " the guards of C12_pipeline_wt hold but: " ++ trunc 300 why)
+              then VViol ("class=ill-typed-stage:" ++ st ++ "-inside-pipeline-guard " ++ name ++ " the guards of C12_pipeline_wt_source hold but: " ++ trunc 300 why)
               else
               if risk && String.eqb st "core" && is_rebinding_message why
               then VViol ("class=capture-under-binder " ++ name ++ " core: " ++ trunc 300 why)
